@@ -5,7 +5,7 @@ import ast
 import itertools
 
 from ..absval import Undecided, eval_function, linform, Lin, module_constants
-from ..core import (AnalysisError, call_name, dotted, is_const, kwarg, local_defs, norm, origin,
+from ..core import (alpha, AnalysisError, call_name, dotted, is_const, kwarg, local_defs, norm, origin,
                     parent_map, walk_local, arg)
 from ..pattern import pmatch, pfind
 from ..facts import (default_of, guards_of, list_literal_strs, mentions, recv_calls, returns_of,
@@ -257,14 +257,26 @@ def hh(rep):
     # _is_hh_pair: both ends are hydrogen
     hp = rep.f(ITSD, "_is_hh_pair")
     rets = returns_of(hp.node)
-    ok = None
-    if len(rets) == 1 and isinstance(rets[0].value, ast.BoolOp) and isinstance(rets[0].value.op, ast.And):
-        parts = rets[0].value.values
-        txt = sorted(norm(p_).replace(" ", "") for p_ in parts)
-        Pn = hp.params
-        want = sorted(f"{Pn[0]}.nodes[{x}].get('element')=='H'" for x in Pn[1:3])
-        ok = txt == want
-    rep.ob("O2.4", "CMP", hp, ok, rets[0].value if rets else "return", "an H-H pair is a bond whose two end atoms are both 'H'")
+    # decided on the table of element pairs: the function body is interpreted with the two end atoms' elements as the only inputs
+    from ..absval import _NOVALUE, eval_function
+    Pn = hp.params
+    ok, table = True, {}
+    try:
+        for eu in ("H", "C", None):
+            for ev in ("H", "O", None):
+                def hook(e, env, eu=eu, ev=ev):
+                    for x, val in ((Pn[1], eu), (Pn[2], ev)):
+                        if pmatch(f"{Pn[0]}.nodes[{x}].get('element')", e) is not None or pmatch(f"{Pn[0]}.nodes[{x}]['element']", e) is not None \
+                                or pmatch(f"{Pn[0]}.nodes[{x}].get('element', None)", e) is not None:
+                            return val
+                    return _NOVALUE
+                got = bool(eval_function(hp.node, {"__resolve__": hook}))
+                table[f"{eu},{ev}"] = got
+                if got != (eu == "H" and ev == "H"):
+                    ok = False
+    except Undecided as exc:
+        ok, table = None, {"undecided": str(exc)}
+    rep.ob("O2.4", "CMP", hp, ok, "_is_hh_pair(ITS, u, v)", "an H-H pair is a bond whose two end atoms are both 'H'", {"verdict_by_elements": table})
 
 
 def _worklist_ball(rep, fi, w, acc, P):
@@ -344,8 +356,20 @@ def knn(rep):
         ok = bool(nb) and all(dotted(c.func.value) == P[0] for c in nb)
         gens = [g for g in ast.walk(src) if isinstance(g, ast.comprehension)] if src is not None else []
         ok_all = len(gens) == 1 and norm(gens[0].iter) == acc and not gens[0].ifs
-        rep.ob("O2.5", "SRC", fi, ok, src if src is not None else upd[0], "each round adds the neighbours in the searched graph", node=upd[0])
-        rep.ob("O2.5", "MONO", fi, ok_all, src if src is not None else upd[0],
+        if not ok and isinstance(upd[0].args[0], ast.Name):
+            # the shell of a round is collected by an explicit nested loop:  for n in <acc>: for m in G.neighbors(n): shell.add(m)
+            shell = upd[0].args[0].id
+            pm = parent_map(fi.node)
+            for a_, b_ in pfind(f"{shell}.add($m)", lp) + pfind(f"{shell}.update({P[0]}.neighbors($n))", lp):
+                ls = enclosing_loops(pm, a_, lp)
+                unguarded = not guards_of(pm, a_, lp)
+                if "m" in b_ and len(ls) == 2 and pmatch(f"{P[0]}.neighbors($n)", ls[0].iter) is not None and norm(ls[0].target) == b_["m"] \
+                        and norm(ls[1].target) == pmatch(f"{P[0]}.neighbors($n)", ls[0].iter)["n"] and norm(ls[1].iter) in (acc, f"list({acc})", f"tuple({acc})"):
+                    ok, ok_all = True, unguarded
+                elif "n" in b_ and len(ls) == 1 and norm(ls[0].target) == b_["n"] and norm(ls[0].iter) in (acc, f"list({acc})", f"tuple({acc})"):
+                    ok, ok_all = True, unguarded
+        rep.ob("O2.5", "SRC", fi, ok, alpha(src, fi.node) if src is not None else upd[0], "each round adds the neighbours in the searched graph", node=upd[0])
+        rep.ob("O2.5", "MONO", fi, ok_all, alpha(src, fi.node) if src is not None else upd[0],
                "each round expands around every node collected so far (unfiltered)", node=upd[0])
     d = default_of(rep.f(RAD, "RadiusExpand.extract_k"), "n_knn")
     rep.ob("O2.5", "CMP", fi, d is not None and is_const(d, 0), d if d is not None else "n_knn", "extract_k defaults to radius 0")
